@@ -11,7 +11,6 @@ recovery (same hook, armed on the recovering open) must recover to the same stat
 from sqlcase import is_conflict_text
 import os
 import random
-import re
 import shutil
 
 from common import Report, Violation, parallel_map, h, run_sentinels, scratch_dir, rm, Runner, RunnerDied, RunnerTimeout
@@ -31,16 +30,13 @@ def gen_workload(rng):
     """[(kind, sql, apply_fn)] where apply_fn mutates a model dict name->ModelTable"""
     steps = []
     tables = {}
-    # a third of the workloads name tables and columns with multi-byte characters: the manifest records hold the names, and a
-    # torn write can end inside a character
-    wide = rng.random() < 0.33
-    names = ["tä", "t数"] if wide else ["ta", "tb"]
+    names = ["ta", "tb"]
     uid = [0]
 
     def mk_table(name):
         cols = [Col("id", "INT", nullable=False, pk=rng.random() < 0.5)]
         for i in range(rng.randint(1, 2)):
-            cols.append(Col(("pé", "q€")[i] if wide else "pq"[i], rng.choice(TYPES)))
+            cols.append(Col("pq"[i], rng.choice(TYPES)))
         return Table(name, cols)
 
     n = rng.randint(6, 14)
@@ -265,17 +261,8 @@ def torn_variants(snapdir, cp, prev_manifest_len, exhaustive, rng):
     if exhaustive and step != "colfile.written":
         lens = list(range(lo, size))
     else:
-        lens = {lo, lo + 1, (lo + size) // 2, size - 1, rng.randrange(lo, size)}
-        if step == "manifest_append.written":
-            # structural cuts of a manifest record: inside a multi-byte character of a name (the file is text), and right after
-            # each `"End"` / before each `"Begin"` (between two transactions of one statement)
-            data = open(f, "rb").read()
-            inside = [i for i in range(max(lo, 1), size) if data[i] & 0xC0 == 0x80]
-            if inside:
-                lens |= {inside[0], rng.choice(inside)}
-            ends = [m.end() for m in re.finditer(rb'"End"', data[lo:])]
-            lens |= {lo + e for e in ends[:-1]}
-        lens = sorted(x for x in lens if lo <= x < size)
+        lens = sorted({lo, lo + 1, (lo + size) // 2, size - 1, rng.randrange(lo, size)})
+        lens = [x for x in lens if lo <= x < size]
     for ln in lens:
         d = scratch_dir("torn")
         shutil.copytree(snapdir, os.path.join(d, "db"))
